@@ -81,14 +81,16 @@ CHECKS = {
         "text": ("Lean theorems (unbounded) about the TRANSCRIBED generated code: unmarshalStat (marshalStat s) = ok s for every well-formed Stat "
                  "(stat_roundtrip: uint32/int64 field ranges incl. negative sizes, arbitrary byte strings as names, distinct xattr keys; tag dispatch, wire-type "
                  "and bounds checks, nested map-entry loop, 64-bit shift/OR varint reader with overflow and EOF exits all inside the proof), "
-                 "unmarshalPacket (marshalPacket p) = ok p with the nested optional Stat (packet_roundtrip), readVar_roundtrip, varint_roundtrip; any sequence of "
+                 "unmarshalPacket (marshalPacket p) = ok p with the nested optional Stat (packet_roundtrip), readVar_roundtrip, varint_roundtrip; for EVERY byte "
+                 "string the Stat and Packet decoders return a value or a decoder error, never an out-of-range index or slice "
+                 "(stat_decoder_never_panics, packet_decoder_never_panics: every dAtA[i] and dAtA[a:b] of the transcription is bounds-checked); any sequence of "
                  "messages framed with a 4-byte big-endian length is read back identical and in order, independent of fragmentation (frames_roundtrip). "
                  "Correspondence: the transcription is run against the Go decoder on mutated encodings and raw bytes (value-or-error equality, every read "
                  "bounds-checked with outcome 'panic'); values go through the hand-optimised and the generic codec in both directions; packets go through "
                  "util.ProtoStream with fragmenting readers, aliasing and allocation monitors."),
         "note": ("Trusted: Lean kernel + standard axioms; the transcription of *_vtproto.pb.go is tied to the code by the wirebytes/wirevals suites, not by a "
-                 "translator. 'Never panics on arbitrary bytes' is decided by execution of the bounds-checked transcription and the Go decoder on the same bytes, "
-                 "not yet by a theorem; 'never aliases' and 'never over-allocates' are runtime facts observed by the harness monitors. Known finding F17 "
+                 "translator. 'Never panics' is a theorem about the transcription (index and slice expressions); that the Go code has no other panicking "
+                 "construct is covered by running the Go decoder on the same bytes; 'never aliases' and 'never over-allocates' are runtime facts observed by the harness monitors. Known finding F17 "
                  "(non-UTF-8 names vs the generic runtime) is listed in known_findings.json."),
     },
     "C19": {
